@@ -122,6 +122,21 @@ def polygon_vertices(rng, L, cx, cy, kind=None):
     return xs, ys
 
 
+def typed_size(rng, v, ints=True):
+    """the same size as a Python float, or (25 %) as another scalar type the API accepts."""
+    import numpy as np
+    if rng.random() >= 0.25:
+        return v
+    kind = rng.choice(['float32', 'float64', 'int', 'int64', 'int32'] if (ints and v >= 3) else ['float32', 'float64'])
+    if kind == 'float32':
+        return {'np': 'float32', 'v': float(np.float32(v))}
+    if kind == 'float64':
+        return {'np': 'float64', 'v': float(v)}
+    if kind == 'int':
+        return int(v)
+    return {'np': kind, 'v': int(v)}
+
+
 def pixel_region_spec(rng, cls=None, size=None, center=None, include=None, angle=None, classes=None,
                       max_aspect=1000.0, size_range=(1e-3, 1e6), poly_kind=None, meta_extra=None):
     """Spec of one random pixel region (simple shape, annulus, point/line/text)."""
@@ -142,9 +157,9 @@ def pixel_region_spec(rng, cls=None, size=None, center=None, include=None, angle
     if cls == 'CirclePixelRegion':
         if isinstance(cx, int) and L >= 4 and rng.random() < 0.5:
             return S.reg(cls, meta=meta, center=c, radius=int(L / 2))        # integer radius with integer centre
-        return S.reg(cls, meta=meta, center=c, radius=L / 2)
+        return S.reg(cls, meta=meta, center=c, radius=typed_size(rng, L / 2))
     if cls in ('EllipsePixelRegion', 'RectanglePixelRegion'):
-        return S.reg(cls, meta=meta, center=c, width=w, height=h, angle=ang)
+        return S.reg(cls, meta=meta, center=c, width=typed_size(rng, w), height=typed_size(rng, h), angle=ang)
     if cls == 'PolygonPixelRegion':
         xs, ys = polygon_vertices(rng, L, cx, cy, poly_kind)
         if L >= 8 and abs(cx) < 1e6 and rng.random() < 0.15:
@@ -163,7 +178,7 @@ def pixel_region_spec(rng, cls=None, size=None, center=None, include=None, angle
         return S.reg(cls, meta=meta, center=c, nvertices=rng.randint(3, 12), radius=L / 2, angle=ang)
     if cls == 'CircleAnnulusPixelRegion':
         f = rng.uniform(0.05, 0.95)
-        return S.reg(cls, meta=meta, center=c, inner_radius=f * L / 2, outer_radius=L / 2)
+        return S.reg(cls, meta=meta, center=c, inner_radius=typed_size(rng, f * L / 2, ints=False), outer_radius=typed_size(rng, L / 2, ints=False))
     if cls in ('EllipseAnnulusPixelRegion', 'RectangleAnnulusPixelRegion'):
         f1, f2 = rng.uniform(0.05, 0.95), rng.uniform(0.05, 0.95)
         return S.reg(cls, meta=meta, center=c, inner_width=f1 * w, outer_width=w, inner_height=f2 * h,
